@@ -28,6 +28,7 @@ type Engine struct {
 	funcIDs map[*ssa.Function]int
 	funcs   map[string]*ssa.Function // by key
 	specFiles []string
+	guards    []guardDecl
 	allocCap int64
 }
 
